@@ -249,7 +249,13 @@ def R4_turns(ctx):
     ctx.check(okb and seen == {0, 360, -360}, "bearing:wrapped-difference", "bearing is not (dest.start - self.end) with -360 when > 180 and +360 when < -180 (offsets seen %s)" % sorted(seen), hb.where(), detail="start(dest) - end(self), wrapped")
     eh = F.need(T + "edge_heading::EdgeHeading::end_heading")
     er = {r.sel.get(("field", ("arg", 1), "departure_heading")): r.ret for r in table(eh) if r.end == "return"}
-    ctx.check(er.get("Some") == ("field", ("arg", 1), "departure_heading") and er.get("None") == ("field", ("arg", 1), "arrival_heading"), "end-heading", "end_heading is not departure_heading or else arrival_heading", eh.where())
+    DEP, ARR = ("field", ("arg", 1), "departure_heading"), ("field", ("arg", 1), "arrival_heading")
+    okeh = er.get("Some") == DEP and er.get("None") == ARR
+    if not okeh:
+        # the same choice through a combinator: departure_heading.unwrap_or(arrival_heading) / map_or / unwrap_or_else
+        raw_ = nosite(Terms(eh).return_term())
+        okeh = canon_default(raw_) == ("default", DEP, ARR) or norm_adaptors(F, raw_) == ("default", DEP, ARR)
+    ctx.check(okeh, "end-heading", "end_heading is not departure_heading or else arrival_heading", eh.where())
     sh = F.need(T + "edge_heading::EdgeHeading::start_heading")
     ctx.check(nosite(deep_strip(Terms(sh).return_term())) == ("field", ("arg", 1), "arrival_heading"), "start-heading", "start_heading is not arrival_heading", sh.where())
     # get_delay
@@ -325,4 +331,39 @@ def R8_declared_features(ctx):
     R4_state_model(ctx)
 
 
-RULES = [R1_edge_step, R2_units, R3_one_slot, R4_turns, R5_summary, R6_edge_cost_formula, R7_reorient, R8_declared_features]
+def R9_synthetic_destination_state(ctx):
+    """C03.R9 the zero-cost destination edge of an edge-oriented route repeats the state at the end of that same route"""
+    F = ctx.F
+    ctx.rule("C03.R9", "edge-oriented wrappers append the destination edge with zero cost and the state reached just before it: per route, route.last().result_state of the route it is pushed to (k-shortest-path wrapper); the search tree's branch at src(destination edge) (A* wrapper, one route) — the traversal summary is read from route.last() (C03.R5), so any other state makes the reported totals differ from the sums over the route's edges", floor=2)
+    A_ = "routee_compass_core::algorithm::search::"
+    ETP = A_ + "edge_traversal::EdgeTraversal"
+    kb = F.need(A_ + "search_algorithm::run_edge_oriented")
+    tm = Terms(kb)
+    pushes = [c for c in kb.calls() if c.callee and c.callee.startswith("std::vec::Vec::<T, A>::push")]
+    n = 0
+    for c in pushes:
+        v = clean(tm.operand(c.args[1], c.bb))
+        if not (v[0] == "agg" and v[1] == ETP and dict(v[3]).get("edge_id") == ("arg", 2)):
+            continue
+        n += 1
+        recv = clean(tm.operand(c.args[0], c.bb))
+        st = dict(v[3]).get("result_state")
+        want = ("field", ("call", "std::slice::<impl [T]>::last", (recv,)), "result_state")
+        ctx.check(st == want, "ksp:destination-state=own-route-end", "the destination edge appended to a route does not carry the state at the end of that route (route.last().result_state): %s" % short(st)[:160], c.where(), detail="route.last().result_state")
+    ctx.check(n == 1, "ksp:destination-edge-site", "expected one push of the destination edge onto the routes of the sub-search, found %d" % n, kb.where())
+    ab = F.need(A_ + "a_star::a_star_algorithm::run_a_star_edge_oriented")
+    tm2 = Terms(ab)
+    m_ = 0
+    for c in ab.calls():
+        if not (c.callee and c.callee.endswith("::extend")):
+            continue
+        for q in subterms(clean(tm2.operand(c.args[1], c.bb))):
+            if q[0] == "agg" and q[1] == ETP and dict(q[3]).get("edge_id") == ("arg", 2):
+                m_ += 1
+                st = dict(q[3]).get("result_state")
+                ok = st[0] == "field" and st[2] == "result_state" and st[1][0] == "field" and st[1][2] == "edge_traversal" and st[1][1][0] == "call" and st[1][1][1].endswith("::get") and st[1][1][2][1] == ("call", "routee_compass_core::model::network::graph::Graph::src_vertex_id", (("field", ("arg", 5), "directed_graph"), ("arg", 2))) and st[1][1][2][0][0] == "field" and st[1][1][2][0][2] == "tree"
+                ctx.check(ok, "a*:destination-state=tree[src(e2)]", "the destination edge of the A* wrapper does not carry the state of the tree's branch at src(destination edge): %s" % short(st)[:160], c.where(), detail="tree.get(src(e2)).edge_traversal.result_state")
+    ctx.check(m_ >= 1, "a*:destination-edge-site", "the destination branch of the A* wrapper was not found", ab.where())
+
+
+RULES = [R1_edge_step, R2_units, R3_one_slot, R4_turns, R5_summary, R6_edge_cost_formula, R7_reorient, R8_declared_features, R9_synthetic_destination_state]
